@@ -433,6 +433,8 @@ def _configs2():
     for nt, nf in itertools.product(("T", "E1", "E2"), repeat=2):
         for tt, tf in itertools.product(("E1", "E2", "E3", "N"), repeat=2):
             for extra in (False, True):
+                if extra and "T" not in (nt, nf):
+                    continue  # a further predecessor of a node that is not part of the chain changes nothing
                 yield i, (nt, nf, tt, tf, extra)
                 i += 1
 
@@ -564,7 +566,7 @@ def _configs3(full):
     # first two: shapes like !(x && y) && z, where the inner merged node becomes a negated first operand)
     O_opts = slots("N", exits2 + ("T",))
     N_opts = slots("T", ("E1", "E2", "E3") if full else exits2)
-    T_opts = list(itertools.permutations(("E1", "E2", "E3"), 2)) if full else [("E1", "E2"), ("E2", "E1"), ("E1", "E3"), ("E3", "E2")]
+    T_opts = list(itertools.permutations(("E1", "E2", "E3"), 2)) if full else [("E1", "E2"), ("E2", "E1")]
     i = 0
     for o in O_opts:
         for n in N_opts:
@@ -659,6 +661,9 @@ def _canonical_merges(repo, anchors):
             (("E1", "T", "E2", "E1", False), "!node && else"), (("E1", "T", "E1", "E2", False), "node || else")]
 
 
+_WRITER_QUICK_ALT = {("none", "none"), ("none", "join"), ("true", "true"), ("true", "false"), ("false", "none"), ("false", "join")}
+
+
 def check_writer(sink, repo, anchors, full=True):
     wr = repo.mod(WR)
     vcn = wr.func("Writer.visit_cond_node")
@@ -667,8 +672,8 @@ def check_writer(sink, repo, anchors, full=True):
     k = 0
     for cfg, label in _canonical_merges(repo, anchors):
         for lf, fo, nc, numgt in itertools.product(("none", "true", "false"), ("none", "true", "false", "join"), ("none", "true"), (False, True)):
-            if not full and (nc == "true") != numgt:
-                continue  # quick tier: the follow x loop-follow product with two of the four (next_case, numbering) combinations
+            if not full and ((nc == "true") != numgt or (nc == "true") != (((lf, fo) in _WRITER_QUICK_ALT))):
+                continue  # quick tier: the follow x loop-follow product, each with one of two (next_case, numbering) combinations
             k += 1
             ops = (_OPL[k % 6], _OPL[(k // 6) % 6])
             w = _config2(repo, anchors, cfg, ops)
@@ -907,12 +912,12 @@ def run(ctx):
     ctx.floor("conds_rows", 6)
     ctx.floor("neg_methods", 2)
     ctx.floor("merge_shapes", 4)
-    ctx.floor("configs2", 288)
+    ctx.floor("configs2", 224)
     ctx.floor("merges2", 8)
     if not ctx.counts.get("dependent_skipped"):
-        ctx.floor("merges3", 128)
+        ctx.floor("merges3", 128 if full else 96)
         ctx.floor("chain_shapes", 8)
-        ctx.floor("writer_cases", 200 if full else 104)
+        ctx.floor("writer_cases", 200 if full else 56)
     ctx.assume("leaf conditions are side-effect free, so equality of the selected successor for every outcome combination is routing equivalence")
     ctx.assume("back edges into the chain (a conditional node that is its own successor) are outside the quantifier (exit targets only)")
     ctx.note("noted, not a verdict: Writer.visit_short_circuit_condition negates cond1 in place when nnot is set, so printing the same "
